@@ -215,7 +215,10 @@ def random_cfg(rng, alg=None, family="roomy", nobs=None, maxn=4):
     if family == "join":
         c = random_cfg(rng, alg=alg, family="roomy", nobs=nobs or rng.choice([1, 1, 2]), maxn=maxn)
         nm = rng.randint(2, 3)
-        c["machines"] = [{"id": f"m{i}", "cpu": rng.choice([1, 2, 3]), "bw": rng.choice([1, 1, 2, 3])}
+        # bandwidths are powers of two: volume / bandwidth is then an exact binary
+        # fraction, so that topsim's floating-point event times order exactly as
+        # the specification's rational times do
+        c["machines"] = [{"id": f"m{i}", "cpu": rng.choice([1, 2, 3]), "bw": rng.choice([1, 1, 2, 4])}
                          for i in range(nm)]
         K = 1
         for m in c["machines"]:
